@@ -1,0 +1,17 @@
+//go:build !verif
+
+package verifhook
+
+import "context"
+
+// Enabled reports whether the hooks are compiled in.
+const Enabled = false
+
+func Begin(kind string)                            {}
+func End(kind string)                              {}
+func SpawnCtx(ctx context.Context) context.Context { return ctx }
+func SpawnDone(ctx context.Context)                {}
+func Consumer(bus interface{}, name string)        {}
+func Processed(bus interface{}, name string)       {}
+func Point(name string, args ...interface{})       {}
+func Observe(name string, args ...interface{})     {}
